@@ -427,10 +427,21 @@ class Engine:
             # (what it should mean is not stated anywhere); the minimiser can get here by dropping a
             # deactivation, and must not
             return "noop-probe-active"
+        how = op.get("how")
+        if how == "decorate" and (getattr(sysv.mod, op["fn"], None) is not f or f.__qualname__ != op["fn"]):
+            # only a plain top-level def can have been written with '@tooled' above it here
+            how = "inplace"
         try:
-            if op.get("how") == "inplace":
+            if how == "inplace":
                 ptera.tooled.inplace(f)
                 self.sim.orig_code[op["fn"]] = f.__code__
+                self.tooled_inplace.add(op["fn"])
+            elif how == "decorate":
+                # what '@tooled' above the def does: the name is bound to the tooled copy, the
+                # function the def created is left to itself
+                new = ptera.tooled(f)
+                setattr(sysv.mod, op["fn"], new)
+                self.sim.orig_code[op["fn"]] = new.__code__
                 self.tooled_inplace.add(op["fn"])
             else:
                 sysv.tooled[op["fn"]] = ptera.tooled(f)
